@@ -307,3 +307,31 @@ Proof.
   rewrite Efp, Hfp.
   unfold ds. rewrite digits_value_pad by exact HN. unfold pn. rewrite Z2Nat.id by lia. reflexivity.
 Qed.
+
+(* ---- report columns: quotes are dropped only where the text stays unambiguous ---- *)
+Lemma column_symbol_text_cases st sym :
+  column_symbol_text st sym = symbol_text sym \/
+  (column_symbol_text st sym = sym /\ st_separated st = true /\
+   existsb (fun c => c =? 32) sym = false /\ forallb is_digit sym = false).
+Proof.
+  unfold column_symbol_text.
+  destruct (needs_quotes sym); cbn [andb]; [|left; reflexivity].
+  destruct (st_separated st); cbn [andb]; [|left; reflexivity].
+  destruct (existsb (fun c => c =? 32) sym); cbn [andb negb]; [left; reflexivity|].
+  destruct (forallb is_digit sym); cbn [andb negb]; [left; reflexivity|].
+  right. repeat split; reflexivity.
+Qed.
+
+Lemma column_text_unseparated cp st a :
+  st_separated st = false -> amount_text_col cp st a = amount_text cp st a.
+Proof.
+  intros Hs. unfold amount_text_col, amount_text.
+  destruct (acomm a) as [sym|]; [|reflexivity].
+  destruct (column_symbol_text_cases st sym) as [E|[_ [E _]]]; [rewrite E; reflexivity|congruence].
+Qed.
+
+Lemma column_text_usual_symbol cp st a sym :
+  acomm a = Some sym -> needs_quotes sym = false -> amount_text_col cp st a = amount_text cp st a.
+Proof.
+  intros Hc Hq. unfold amount_text_col, amount_text, column_symbol_text. rewrite Hc, Hq. reflexivity.
+Qed.
